@@ -652,6 +652,12 @@ def r7(ctx):
     ctx.floor("C09.R7", 1)
 
 
+def r8(ctx):
+    """an author-heads report survives encode -> decode: decoding rebuilds the set through AuthorHeads::insert, which keeps every
+    author it is given - also one whose timestamp is 0 - at the maximum of its timestamps (= C13.R2 insert-keeps-maximum)"""
+    from . import C13
+    ctx.share("C09.R8", C13.r2, "C13.R2", keep=lambda k: "insert" in k, floor=1)
+
 def run(ctx):
     ctx.run_rule("C09.R1", r1)
     ctx.run_rule("C09.R2", r2)
@@ -660,3 +666,4 @@ def run(ctx):
     ctx.run_rule("C09.R5", r5)
     ctx.run_rule("C09.R6", r6)
     ctx.run_rule("C09.R7", r7)
+    ctx.run_rule("C09.R8", r8)
